@@ -94,7 +94,7 @@ def _load(docs: List[str]) -> Tuple[Any, str, bool]:
 def process(recs: List[Dict[str, Any]]) -> Dict[str, Any]:
     from odxtools.utils import retarget_snrefs
     fails: List[Tuple[str, Dict[str, Any]]] = []
-    st = {"id_loads": 0, "unresolved": 0, "dontcare": 0, "imported_targets": 0, "sn_loads": 0, "retargets": 0, "sn_unresolved": 0}
+    st = {"id_loads": 0, "unresolved": 0, "dontcare": 0, "imported_targets": 0, "sn_loads": 0, "retargets": 0, "sn_unresolved": 0, "removals": 0, "removal_unresolved": 0}
 
     def fail(clause: str, detail: Dict[str, Any]) -> None:
         if len(fails) < 300:
@@ -127,6 +127,39 @@ def process(recs: List[Dict[str, Any]]) -> Dict[str, Any]:
                     got = getattr(p.dop, "long_name", "?")
                     if got != want:
                         fail("bound_to_wrong_object", {**base, "bound_to": got})
+                        continue
+                    # ---- the object the reference is bound to is taken out of its layer and everything is resolved again:
+                    # the reference names what the configuration without that object prescribes (or nothing any more)
+                    after = ref.get("after")
+                    if after is None or after == "DontCare":
+                        continue
+                    from odxtools.exceptions import OdxError
+                    dd = db.diag_layers[want].diag_layer_raw.diag_data_dictionary_spec
+                    victim = [d for d in dd.data_object_props if d.odx_id.local_id == ref["id"]]
+                    if len(victim) != 1:
+                        continue
+                    dd.data_object_props.remove(victim[0])
+                    st["removals"] += 1
+                    try:
+                        db.refresh()
+                        raised = ""
+                    except (OdxError, KeyError) as e:
+                        raised = type(e).__name__
+                    except Exception as e:  # noqa: BLE001
+                        fail("load_raises_foreign_exception", {**base, "exc": type(e).__name__, "phase": "target removed"})
+                        continue
+                    if after == "Unresolved":
+                        st["removal_unresolved"] += 1
+                        if not raised:
+                            p = db.diag_layers[ref["src"]].diag_layer_raw.requests.RQ.parameters.p
+                            fail("dangling_reference_bound", {**base, "bound_to": getattr(p.dop, "long_name", "?"), "phase": "target removed"})
+                    elif raised:
+                        fail("resolvable_reference_rejected", {**base, "exc": raised, "phase": "target removed", "expected": after})
+                    else:
+                        p = db.diag_layers[ref["src"]].diag_layer_raw.requests.RQ.parameters.p
+                        got = getattr(p.dop, "long_name", "?")
+                        if got != after:
+                            fail("bound_to_wrong_object", {**base, "bound_to": got, "phase": "target removed", "expected": after})
         else:
             sn = rec["sn"]
             st["sn_loads"] += 1
@@ -182,10 +215,24 @@ def check(tier: str, replay: Optional[str] = None) -> int:
         raise tlc.MachineryError(f"TLC failed on Links: {res.violated} {res.errors[:3]}\n{res.stdout[-2000:]}")
     recs = list(res.json_lines())
     print(f"[C10] TLC: {res.distinct} states, {len(recs)} configurations, {res.wall_s:.1f}s", flush=True)
+    # what each reference names once its target is gone: the configuration of the family without that definition
+    def key(defs: List[List[str]], imports: List[str]) -> str:
+        return json.dumps([sorted(map(list, defs)), sorted(imports)])
+    index = {key(r["defs"], r["imports"]): {(x["src"], x["id"], x["doc"]): x["target"] for x in r["refs"]}
+             for r in recs if r["kind"] == "ids"}
+    for r in recs:
+        if r["kind"] != "ids":
+            continue
+        for x in r["refs"]:
+            if x["target"] in ("Unresolved", "DontCare"):
+                continue
+            sib = index.get(key([d for d in r["defs"] if list(d) != [x["target"], x["id"]]], r["imports"]))
+            if sib is not None and (x["src"], x["id"], x["doc"]) in sib:
+                x["after"] = sib[(x["src"], x["id"], x["doc"])]
     if replay:
         case = json.loads(open(replay).read())
         if case["kind"] == "ids":
-            recs = [dict(r, refs=[x for x in r["refs"] if x == case["ref"]]) for r in recs
+            recs = [dict(r, refs=[x for x in r["refs"] if all(x[k_] == case["ref"][k_] for k_ in ("src", "id", "doc"))]) for r in recs
                     if r["kind"] == "ids" and r["defs"] == case["defs"] and r["imports"] == case["imports"]]
         else:
             recs = [r for r in recs if r["kind"] == "sn" and r["sn"] == case["sn"]]
